@@ -144,6 +144,35 @@ Theorem C20_shipped_json : forall name,
 Proof. exact (shipped_json burrow_schema all_templates _ C20_table_embed C20_table_json). Qed.
 Print Assumptions C20_shipped_json.
 
+(* The documented meaning of the summarising helpers (the model's apply_fn runs exactly these folds over the Status / Topic
+   fields; the "hcall" cases of the probe compare the real helpers, called through the coordinator's FuncMap, with them and
+   with an oracle written from the documentation).
+   topicsbystatus: a topic is listed under a status exactly when some listed partition of that topic is in that status -
+   whatever other states partitions of the same topic are in - and it is listed there once. *)
+Theorem C20_topicsbystatus_spec : forall name (l : list (Z * string)) s t,
+  In t (topics_in (topics_by_status name l) s) <-> exists p, In p l /\ name (fst p) = s /\ snd p = t.
+Proof. exact topics_by_status_spec. Qed.
+Print Assumptions C20_topicsbystatus_spec.
+
+Theorem C20_topicsbystatus_nodup : forall name (l : list (Z * string)) s, NoDup (topics_in (topics_by_status name l) s).
+Proof. exact topics_by_status_nodup. Qed.
+Print Assumptions C20_topicsbystatus_nodup.
+
+(* partitioncounts: every listed partition adds one to exactly the counter of its state; OK partitions to none *)
+Theorem C20_partitioncounts_step : forall z l key,
+  partition_count (z :: l) key =
+  (partition_count l key + match count_key z with Some k => if String.eqb k key then 1 else 0 | None => 0 end)%Z.
+Proof. exact partition_count_step. Qed.
+Print Assumptions C20_partitioncounts_step.
+
+(* a topic with partitions in two states is listed under both (the single shared seen-set of seed C20-r4-2 lists it once) *)
+Example C20_ex_topic_in_two_states :
+  let name := status_name burrow_schema in
+  let m := topics_by_status name [(4%Z, "orders"); (5%Z, "orders"); (5%Z, "payments"); (5%Z, "orders")] in
+  topics_in m "STOP" = ["orders"] /\ topics_in m "STALL" = ["orders"; "payments"] /\ topics_in m "WARN" = [] /\
+  partition_count [4; 5; 5; 1; 3; 100]%Z "stall" = 2%Z /\ partition_count [4; 5; 5; 1; 3; 100]%Z "unknown" = 2%Z.
+Proof. vm_compute. repeat split. Qed.
+
 (* jsonencoder never fails on what the evaluator produces.  templateJSONEncoder discards json.Marshal's error and
    returns "" (helpers.go:64-67) - in a value position that is malformed JSON with no render error, and the model does
    the same (apply_fn FJson on a value containing a non-finite float).  For the Go types of the template data Marshal can
